@@ -8,6 +8,7 @@
 use rand::rngs::StdRng;
 use rand::Rng;
 use serde_json::{json, Value};
+use smartcore::api::{Predictor, SupervisedEstimator};
 use smartcore::linalg::naive::dense_matrix::DenseMatrix;
 use smartcore::linalg::BaseMatrix;
 use smartcore::linear::elastic_net::*;
@@ -35,6 +36,9 @@ struct Params {
     /// exact power-of-two rescaling of alpha that goes with the rescaling of the data
     /// (see `Data::xexp`, `Data::yexp`); the event records the unscaled alpha = aN / 2^aE
     aexp: i32,
+    /// entry point: false = the inherent `Lasso::fit` / `predict`, true = the api traits
+    /// `SupervisedEstimator::fit` / `Predictor::predict` (fully qualified calls)
+    api: bool,
 }
 
 impl Params {
@@ -64,6 +68,12 @@ struct Data {
     ///   elastic net, raw     :  xexp = yexp = g, aexp = 2g (w' = w)
     xexp: i32,
     yexp: i32,
+    /// Target-offset family.  The stated objective depends on y only through y - mean(y), so
+    /// adding a constant to every target changes the intercept by that constant and nothing
+    /// else.  The library is fed (y + yoff) * 2^yexp with a large exactly representable yoff
+    /// (2^30 .. 2^36, 1e9: |mean| / spread up to 1e10); `run_fit` subtracts yoff from the
+    /// intercept and the predictions again, the event carries the small integers y and `yoff`.
+    yoff: i64,
 }
 
 struct Outcome {
@@ -83,23 +93,40 @@ fn run_fit_limit(d: &Data, pr: &Params, secs: u64) -> Outcome {
     let wback = (2.0f64).powi(d.xexp - d.yexp);
     let yback = (2.0f64).powi(-d.yexp);
     let rows: Vec<Vec<f64>> = d.x.iter().map(|r| r.iter().map(|&v| v as f64 * xs / d.xden as f64).collect()).collect();
-    let y: Vec<f64> = d.y.iter().map(|&v| v as f64 * ys).collect();
+    let y: Vec<f64> = d.y.iter().map(|&v| (v + d.yoff) as f64 * ys).collect();
+    let yoff = d.yoff as f64;
     let pr = pr.clone();
     let p = if rows.is_empty() { 0 } else { rows[0].len() };
     let r = watchdog(secs, move || {
         let x = DenseMatrix::from_2d_vec(&rows);
+        type Dm = DenseMatrix<f64>;
+        let coef = |m: &Dm| (0..p).map(|j| m.get(j, 0)).collect::<Vec<f64>>();
         if pr.est == "lasso" {
-            Lasso::fit(&x, &y, LassoParameters { alpha: pr.alpha(), normalize: pr.normalize, tol: pr.tol(), max_iter: pr.max_iter })
-                .and_then(|m| {
-                    let yh = m.predict(&x)?;
-                    Ok(((0..p).map(|j| m.coefficients().get(j, 0)).collect::<Vec<f64>>(), m.intercept(), yh))
+            let par = LassoParameters { alpha: pr.alpha(), normalize: pr.normalize, tol: pr.tol(), max_iter: pr.max_iter };
+            if pr.api {
+                <Lasso<f64, Dm> as SupervisedEstimator<Dm, Vec<f64>, LassoParameters<f64>>>::fit(&x, &y, par).and_then(|m| {
+                    let yh = <Lasso<f64, Dm> as Predictor<Dm, Vec<f64>>>::predict(&m, &x)?;
+                    Ok((coef(m.coefficients()), m.intercept(), yh))
                 })
+            } else {
+                Lasso::fit(&x, &y, par).and_then(|m| {
+                    let yh = m.predict(&x)?;
+                    Ok((coef(m.coefficients()), m.intercept(), yh))
+                })
+            }
         } else {
-            ElasticNet::fit(&x, &y, ElasticNetParameters { alpha: pr.alpha(), l1_ratio: pr.l1(), normalize: pr.normalize, tol: pr.tol(), max_iter: pr.max_iter })
-                .and_then(|m| {
-                    let yh = m.predict(&x)?;
-                    Ok(((0..p).map(|j| m.coefficients().get(j, 0)).collect::<Vec<f64>>(), m.intercept(), yh))
+            let par = ElasticNetParameters { alpha: pr.alpha(), l1_ratio: pr.l1(), normalize: pr.normalize, tol: pr.tol(), max_iter: pr.max_iter };
+            if pr.api {
+                <ElasticNet<f64, Dm> as SupervisedEstimator<Dm, Vec<f64>, ElasticNetParameters<f64>>>::fit(&x, &y, par).and_then(|m| {
+                    let yh = <ElasticNet<f64, Dm> as Predictor<Dm, Vec<f64>>>::predict(&m, &x)?;
+                    Ok((coef(m.coefficients()), m.intercept(), yh))
                 })
+            } else {
+                ElasticNet::fit(&x, &y, par).and_then(|m| {
+                    let yh = m.predict(&x)?;
+                    Ok((coef(m.coefficients()), m.intercept(), yh))
+                })
+            }
         }
     });
     match r {
@@ -109,8 +136,8 @@ fn run_fit_limit(d: &Data, pr: &Params, secs: u64) -> Outcome {
         Some(Ok(Ok((w, b, yhat)))) => Outcome {
             status: "ok",
             w: w.iter().map(|v| v * wback).collect(),
-            b: b * yback,
-            yhat: yhat.iter().map(|v| v * yback).collect(),
+            b: b * yback - yoff,
+            yhat: yhat.iter().map(|v| v * yback - yoff).collect(),
         },
     }
 }
@@ -135,12 +162,16 @@ fn fit_event(run: i64, d: &Data, pr: &Params, o: &Outcome) -> Value {
     }
     json!({"run": run, "ev": "Fit", "est": pr.est, "fam": d.fam, "n": d.x.len(), "p": if d.x.is_empty() {0} else {d.x[0].len()},
         "X": d.x, "xden": d.xden, "y": d.y, "ylen": d.y.len(), "xexp": d.xexp, "yexp": d.yexp, "aexp": pr.aexp,
+        "yoff": d.yoff, "entry": if pr.api { "api" } else { "inherent" },
         "aN": pr.an, "aE": pr.ae, "l1N": pr.l1n, "l1E": pr.l1e, "normalize": pr.normalize,
         "tolSgn": pr.tol_sgn, "tolE": pr.tol_e, "maxIter": pr.max_iter,
         "status": o.status, "fin": fin, "q": q})
 }
 
-fn pair_event(run: i64, kind: &str, d: &Data, pr: &Params, c: i64, a: &Outcome, b: &Outcome) -> Value {
+/// `c` is the shift of the targets of fit B relative to fit A; `via_offset` says that it was
+/// applied through `Data::yoff` (so fit B's intercept has already been shifted back and the
+/// recorded C is 0)
+fn pair_event(run: i64, kind: &str, d: &Data, pr: &Params, c: i64, via_offset: bool, a: &Outcome, b: &Outcome) -> Value {
     let fin = finite(a) && finite(b);
     let mut q = vec![];
     if fin {
@@ -150,14 +181,14 @@ fn pair_event(run: i64, kind: &str, d: &Data, pr: &Params, c: i64, a: &Outcome, 
             let ba = qz.x(a.b);
             let wb = qz.v(&b.w);
             let bb = qz.x(b.b);
-            let cc = qz.x(c as f64);
+            let cc = qz.x(if via_offset { 0.0 } else { c as f64 });
             if qz.ok() {
                 q.push(json!({"S": s, "WA": wa, "BA": ba, "WB": wb, "BB": bb, "C": cc}));
             }
         }
     }
     json!({"run": run, "ev": "Pair", "kind": kind, "est": pr.est, "fam": d.fam, "n": d.x.len(), "p": d.x[0].len(),
-        "X": d.x, "y": d.y, "shift": c, "xexp": d.xexp, "yexp": d.yexp, "aexp": pr.aexp,
+        "X": d.x, "y": d.y, "shift": c, "xexp": d.xexp, "yexp": d.yexp, "aexp": pr.aexp, "yoff": 0, "entry": "inherent",
         "aN": pr.an, "aE": pr.ae, "l1N": pr.l1n, "l1E": pr.l1e, "normalize": pr.normalize, "tolE": pr.tol_e,
         "statusA": a.status, "statusB": b.status, "fin": fin, "q": q})
 }
@@ -275,14 +306,14 @@ fn gen_data(rng: &mut StdRng, big: bool) -> Data {
         if y.iter().all(|&v| v == y[0]) {
             continue; // constant targets are probed separately (end of the run)
         }
-        return Data { fam: format!("{}/y{}", fam, kind), x, xden: 1, y, xexp: 0, yexp: 0 };
+        return Data { fam: format!("{}/y{}", fam, kind), x, xden: 1, y, xexp: 0, yexp: 0, yoff: 0 };
     }
 }
 
 fn gen_params(rng: &mut StdRng, est: &'static str) -> Params {
     let (an, ae) = if rng.gen_bool(0.75) { ALPHAS[rng.gen_range(0..ALPHAS.len())] } else { (rng.gen_range(1..=80), 3) };
     let (l1n, l1e) = if est == "lasso" { (1, 0) } else { L1S[rng.gen_range(0..L1S.len())] };
-    Params { est, an, ae, l1n, l1e, normalize: rng.gen_bool(0.5), tol_sgn: 1, tol_e: TOLS[rng.gen_range(0..3)], max_iter: 1000, aexp: 0 }
+    Params { est, an, ae, l1n, l1e, normalize: rng.gen_bool(0.5), tol_sgn: 1, tol_e: TOLS[rng.gen_range(0..3)], max_iter: 1000, aexp: 0, api: false }
 }
 
 /// pick a member of the scale family for this (data, parameters) pair, where one exists
@@ -317,6 +348,10 @@ fn gen(path: &str) {
         if i % 5 < 3 {
             choose_scale(&mut rng, &mut d, &mut pr);
         }
+        if i % 4 == 1 {
+            d.yoff = [1i64 << 30, 1_000_000_000, -(3i64 << 32), 1i64 << 36][rng.gen_range(0..4)];
+        }
+        pr.api = i % 3 == 0;
         let o = run_fit(&d, &pr);
         bump(o.status);
         out.emit(fit_event(run, &d, &pr, &o));
@@ -339,20 +374,25 @@ fn gen(path: &str) {
             let b = run_fit(&d, &pl);
             out.emit(fit_event(run, &d, &pe, &a));
             out.emit(fit_event(run, &d, &pl, &b));
-            out.emit(pair_event(run, "l1one", &d, &pe, 0, &a, &b));
+            out.emit(pair_event(run, "l1one", &d, &pe, 0, false, &a, &b));
         } else {
             let mut pr = gen_params(&mut rng, if i % 3 == 0 { "lasso" } else { "enet" });
             if i % 2 == 0 {
                 choose_scale(&mut rng, &mut d, &mut pr);
             }
-            let c: i64 = [1, -7, 100, 1000, -5000, 100000][rng.gen_range(0..6)];
+            let c: i64 = [1, -7, 100, 1000, -5000, 100000, 1 << 30, 1_000_000_000, -(3i64 << 32)][rng.gen_range(0..9)];
+            let via_offset = c.abs() >= 1 << 20;
             let mut d2 = d.clone();
-            d2.y = d.y.iter().map(|v| v + c).collect();
+            if via_offset {
+                d2.yoff = c;
+            } else {
+                d2.y = d.y.iter().map(|v| v + c).collect();
+            }
             let a = run_fit(&d, &pr);
             let b = run_fit(&d2, &pr);
             out.emit(fit_event(run, &d, &pr, &a));
             out.emit(fit_event(run, &d2, &pr, &b));
-            out.emit(pair_event(run, "shift", &d, &pr, c, &a, &b));
+            out.emit(pair_event(run, "shift", &d, &pr, c, via_offset, &a, &b));
         }
     }
     // ---- invalid settings of Lasso: an error is promised
@@ -405,6 +445,31 @@ fn gen(path: &str) {
             }
         }
         d.fam = format!("invalid{}", which.min(6));
+        for &api in &[false, true] {
+            pr.api = api;
+            let o = run_fit(&d, &pr);
+            bump(o.status);
+            out.emit(fit_event(run, &d, &pr, &o));
+        }
+    }
+    // ---- size ladder: row counts around internal block sizes (small entries keep the
+    // specification's 32-bit sums in range)
+    let ladder: &[usize] = if thorough { &[63, 64, 65, 127, 128, 129, 255, 256, 257, 511, 512, 513] } else { &[63, 64, 65, 255, 256, 257] };
+    for (i, &n) in ladder.iter().enumerate() {
+        run += 1;
+        let p = 1 + i % 2;
+        let x = loop {
+            let x = gen_x(&mut rng, n, p, "pm1");
+            if !has_constant_column(&x) {
+                break x;
+            }
+        };
+        let y: Vec<i64> = (0..n).map(|r| x[r][0] * 2 + rng.gen_range(-2..=2) + 3).collect();
+        let d = Data { fam: format!("ladder{}", n), x, xden: 1, y, xexp: 0, yexp: 0, yoff: if i % 3 == 0 { 1 << 30 } else { 0 } };
+        let mut pr = gen_params(&mut rng, if i % 2 == 0 { "lasso" } else { "enet" });
+        pr.an = 1;
+        pr.ae = 2;
+        pr.api = i % 2 == 1;
         let o = run_fit(&d, &pr);
         bump(o.status);
         out.emit(fit_event(run, &d, &pr, &o));
@@ -413,14 +478,14 @@ fn gen(path: &str) {
     // (kept last and few: an abandoned fit keeps its thread busy until the process exits)
     // four fixed instances first (the minimal reproductions quoted in known_findings/C08.json)
     let fixed: Vec<(Data, Params)> = vec![
-        (Data { fam: "probe-alpha0/fixed".into(), x: vec![vec![-4], vec![-13]], xden: 1, y: vec![100001, 99994], xexp: 0, yexp: 0 },
-         Params { est: "lasso", an: 0, ae: 0, l1n: 1, l1e: 0, normalize: false, tol_sgn: 1, tol_e: 20, max_iter: 1000, aexp: 0 }),
-        (Data { fam: "probe-alpha0/fixed".into(), x: vec![vec![83], vec![79], vec![78]], xden: 1, y: vec![14, -8, -6], xexp: 0, yexp: 0 },
-         Params { est: "enet", an: 0, ae: 0, l1n: 1, l1e: 1, normalize: false, tol_sgn: 1, tol_e: 14, max_iter: 1000, aexp: 0 }),
-        (Data { fam: "probe-consty/fixed".into(), x: vec![vec![-1], vec![-1], vec![1]], xden: 1, y: vec![0, 0, 0], xexp: 0, yexp: 0 },
-         Params { est: "enet", an: 1, ae: 0, l1n: 1, l1e: 1, normalize: false, tol_sgn: 1, tol_e: 14, max_iter: 1000, aexp: 0 }),
-        (Data { fam: "probe-constcol".into(), x: vec![vec![1], vec![1], vec![1]], xden: 10, y: vec![-124, -132, -128], xexp: 0, yexp: 0 },
-         Params { est: "lasso", an: 2, ae: 3, l1n: 1, l1e: 0, normalize: true, tol_sgn: 1, tol_e: 14, max_iter: 1000, aexp: 0 }),
+        (Data { fam: "probe-alpha0/fixed".into(), x: vec![vec![-4], vec![-13]], xden: 1, y: vec![100001, 99994], xexp: 0, yexp: 0, yoff: 0 },
+         Params { est: "lasso", an: 0, ae: 0, l1n: 1, l1e: 0, normalize: false, tol_sgn: 1, tol_e: 20, max_iter: 1000, aexp: 0, api: false }),
+        (Data { fam: "probe-alpha0/fixed".into(), x: vec![vec![83], vec![79], vec![78]], xden: 1, y: vec![14, -8, -6], xexp: 0, yexp: 0, yoff: 0 },
+         Params { est: "enet", an: 0, ae: 0, l1n: 1, l1e: 1, normalize: false, tol_sgn: 1, tol_e: 14, max_iter: 1000, aexp: 0, api: false }),
+        (Data { fam: "probe-consty/fixed".into(), x: vec![vec![-1], vec![-1], vec![1]], xden: 1, y: vec![0, 0, 0], xexp: 0, yexp: 0, yoff: 0 },
+         Params { est: "enet", an: 1, ae: 0, l1n: 1, l1e: 1, normalize: false, tol_sgn: 1, tol_e: 14, max_iter: 1000, aexp: 0, api: false }),
+        (Data { fam: "probe-constcol".into(), x: vec![vec![1], vec![1], vec![1]], xden: 10, y: vec![-124, -132, -128], xexp: 0, yexp: 0, yoff: 0 },
+         Params { est: "lasso", an: 2, ae: 3, l1n: 1, l1e: 0, normalize: true, tol_sgn: 1, tol_e: 14, max_iter: 1000, aexp: 0, api: false }),
     ];
     for (d, pr) in fixed.iter() {
         run += 1;
@@ -484,6 +549,7 @@ fn replay_file(input: &str, path: &str) {
             y: serde_json::from_value(e["y"].clone()).unwrap(),
             xexp: e["xexp"].as_i64().unwrap_or(0) as i32,
             yexp: e["yexp"].as_i64().unwrap_or(0) as i32,
+            yoff: e["yoff"].as_i64().unwrap_or(0),
         };
         let pr = Params {
             est: if e["est"] == "lasso" { "lasso" } else { "enet" },
@@ -496,6 +562,7 @@ fn replay_file(input: &str, path: &str) {
             tol_e: e["tolE"].as_u64().unwrap() as u32,
             max_iter: e["maxIter"].as_u64().unwrap() as usize,
             aexp: e["aexp"].as_i64().unwrap_or(0) as i32,
+            api: e["entry"] == "api",
         };
         let o = run_fit(&d, &pr);
         out.emit(fit_event(e["run"].as_i64().unwrap(), &d, &pr, &o));
